@@ -137,9 +137,25 @@ def generate(rng, tier):
         yield valid_case(n)
     for _ in range(1200 if thorough else 300):
         yield from history(rng, rng.randrange(1, 12))
+    # a late response handled while the sweep that reports its request is suspended in the hook: one outcome only
+    from corr import c14
+    for ttl in (1024, 15 * 1024):
+        for k in (1, 2, 3):
+            for what in ('self', 'other', 'unknown', 'sweep'):
+                yield from c14.interleaved_history(ttl, k, what, 1)
+    # session level: the real ESME.start() with an application that queues message objects a second time and clones of
+    # objects already sent; judged by the wire (distinct sequence numbers) and the outcome ledger
+    from corr import c01s
+    yield from c01s.generate(rng, 120 if thorough else 40, again=True, which='c13')
 
 
 def replay(inp):
+    if inp['op'] == 'interleaved':
+        from corr import c14
+        return c14.interleaved_history(inp['ttl'], inp['k'], inp['what'], inp['which'])[-1]
+    if inp['op'] == 'session':
+        from corr import c01s
+        return c01s.case_of(dict(inp['sc']), 'c13')
     if inp['op'] == 'seq':
         return seq_case(*inp['args'])
     if inp['op'] == 'valid':
